@@ -120,6 +120,7 @@ type verifEndpointOpt struct {
 	BasePath     string
 	Models       []string
 	Boot         string // "" / "up", "sick" (health answers 503), "dead" (listener closed)
+	CfgName      string // the name the endpoint has in olla's configuration ("" = the backend's own name)
 }
 
 func verifFreePort() int { return zzverif.FreePort() }
@@ -171,7 +172,7 @@ func verifBoot(engine, lb, profile string, eps []verifEndpointOpt, mod func(*con
 		}
 		p := prio
 		cfg.Discovery.Static.Endpoints = append(cfg.Discovery.Static.Endpoints, config.EndpointConfig{
-			Name: b.Name, URL: b.URL() + o.BasePath, Type: typ, Priority: &p,
+			Name: verifOrName(o.CfgName, b.Name), URL: b.URL() + o.BasePath, Type: typ, Priority: &p,
 			HealthCheckURL: "/health", ModelURL: "/v1/models",
 			CheckInterval: 30 * time.Minute, CheckTimeout: 3 * time.Second, PreservePath: o.PreservePath, // only forced rounds (healthRound) probe: the periodic loop must not interfere on a slow machine
 		})
@@ -260,13 +261,27 @@ func (s *verifStack) repo() domain.EndpointRepository {
 }
 
 // statuses returns name -> stored status.
+// statuses: repository status per BACKEND (resolved through the URL: configured names need not be unique)
 func (s *verifStack) statuses() map[string]string {
 	all, _ := s.repo().GetAll(context.Background())
 	out := map[string]string{}
 	for _, e := range all {
-		out[e.Name] = string(e.Status)
+		name := e.Name
+		for _, be := range s.backends {
+			if strings.HasPrefix(e.URLString, be.URL()) {
+				name = be.Name
+			}
+		}
+		out[name] = string(e.Status)
 	}
 	return out
+}
+
+func verifOrName(cfg, own string) string {
+	if cfg != "" {
+		return cfg
+	}
+	return own
 }
 
 // healthRound forces a full health round (RunHealthCheck, as the scheduler would do when due).
